@@ -915,6 +915,8 @@ class ExprMixin:
     def object_binop(self, op, a, b, st, fr):
         """Arithmetic on opaque objects (raysect Vector3D / Function objects / ndarrays): uninterpreted."""
         nm = 'objop_' + type(op).__name__
+        if isinstance(op, ast.Div) and not isinstance(b, Obj):
+            self.div_defined(to_real(b), st, fr, None)
 
         def key(v):
             if isinstance(v, Obj):
